@@ -112,6 +112,57 @@ theorem scanFold_clean (delims comments : List Char) (nScan : Nat) (header body 
       scanFold_body delims comments nScan body _ hb (by simpa using hn)]
   simp
 
+/-- once `n_scan` rows are collected the loop has left (`break`): the remaining lines change nothing -/
+theorem scanFold_frozen (delims comments : List Char) (nScan : Nat) (l : List String) (st : ScanState)
+    (h : st.rows.length = nScan ∧ 0 < nScan) :
+    l.foldl (scanStep delims comments nScan) st = st := by
+  induction l with
+  | nil => rfl
+  | cons row rest ih =>
+    simp only [List.foldl_cons]
+    have : scanStep delims comments nScan st row = st := by
+      unfold scanStep
+      simp only [h, and_self, if_true]
+    rw [this, ih]
+
+/-- the state of the scan after comment lines followed by any number of data rows: only the first `n_scan` count -/
+theorem scanFold_clean_any (delims comments : List Char) (nScan : Nat) (hpos : 0 < nScan) (header body : List String)
+    (hh : ∀ s ∈ header, isCommentLine comments s = true)
+    (hb : ∀ s ∈ body, isCommentLine comments s = false) :
+    scanFold (header ++ body) delims comments nScan
+      = ⟨header.length, lastComment (comments.headD '#') header, ((body.take nScan).map rstrip).reverse,
+         ((body.take nScan).map fun row => delims.map (fun d => countChar d row)).reverse⟩ := by
+  by_cases hle : body.length ≤ nScan
+  · rw [List.take_of_length_le hle]
+    exact scanFold_clean delims comments nScan header body hh hb hle
+  · have hlt : nScan < body.length := by omega
+    have hsplit : header ++ body = (header ++ body.take nScan) ++ body.drop nScan := by
+      rw [List.append_assoc, List.take_append_drop]
+    unfold scanFold
+    rw [hsplit, List.foldl_append]
+    have h1 := scanFold_clean delims comments nScan header (body.take nScan) hh
+      (fun s hs => hb s (List.mem_of_mem_take hs)) (by simp [List.length_take]; omega)
+    unfold scanFold at h1
+    rw [h1]
+    apply scanFold_frozen
+    simp only [List.length_reverse, List.length_map, List.length_take]
+    omega
+
+theorem scanHeader_clean_any (delims comments : List Char) (nScan : Nat) (hpos : 0 < nScan)
+    (header body : List String)
+    (hh : ∀ s ∈ header, isCommentLine comments s = true)
+    (hb : ∀ s ∈ body, isCommentLine comments s = false) :
+    (scanHeader (header ++ body) delims comments nScan).headerLength = header.length ∧
+    (scanHeader (header ++ body) delims comments nScan).comment = lastComment (comments.headD '#') header ∧
+    (scanHeader (header ++ body) delims comments nScan).delimiter
+      = delims.getD (chooseDelimiter delims.length
+          ((body.take nScan).map fun row => delims.map (fun d => countChar d row))) ' ' ∧
+    (scanHeader (header ++ body) delims comments nScan).layout
+      = layoutOf (scanHeader (header ++ body) delims comments nScan).delimiter ((body.take nScan).map rstrip) := by
+  unfold scanHeader
+  rw [scanFold_clean_any delims comments nScan hpos header body hh hb]
+  simp
+
 theorem scanHeader_clean (delims comments : List Char) (nScan : Nat) (header body : List String)
     (hh : ∀ s ∈ header, isCommentLine comments s = true)
     (hb : ∀ s ∈ body, isCommentLine comments s = false)
@@ -553,7 +604,7 @@ theorem fromCsv_given (symW : Flags → Bool) (num : String → Option Rat) (hea
     (hh : ∀ s ∈ header, isCommentLine a.comments s = true)
     (hclean : CleanFile d (lastComment (a.comments.headD '#') header) a.comments header body)
     (hrs : ∀ s ∈ body, rstrip s = s)
-    (hne : body ≠ []) (hn : body.length ≤ 100)
+    (hne : body ≠ [])
     (hshape : (∀ s ∈ body, (splitAt d s).length = 2) ∨ (∀ s ∈ body, (splitAt d s).length = 3))
     (hint : ∀ s ∈ body, ∀ r, (num ((splitAt d s).getD 0 "") = some r → r.den = 1) ∧
                               (num ((splitAt d s).getD 1 "") = some r → r.den = 1)) :
@@ -561,8 +612,13 @@ theorem fromCsv_given (symW : Flags → Bool) (num : String → Option Rat) (hea
       = fromEdgeListWith symW (intOfNum num) (tuplesOf num (body.map (splitAt d))) f := by
   have hsc : csvScan (header ++ body) a = scanHeader (header ++ body) [d] a.comments := by
     unfold csvScan; rw [hgiven]
-  obtain ⟨h1, h2, h3, h4⟩ := scanHeader_clean [d] a.comments 100 header body hh
-    (fun s hs => hclean.body_data s hs) hn
+  obtain ⟨h1, h2, h3, h4⟩ := scanHeader_clean_any [d] a.comments 100 (by omega) header body hh
+    (fun s hs => hclean.body_data s hs)
+  have htake_ne : body.take 100 ≠ [] := by
+    cases body with
+    | nil => exact absurd rfl hne
+    | cons _ _ => simp
+  have htake : ∀ s ∈ body.take 100, s ∈ body := fun s hs => List.mem_of_mem_take hs
   have hdel : (scanHeader (header ++ body) [d] a.comments).delimiter = d := by
     rw [h3]
     simp only [List.length_cons, List.length_nil, Nat.zero_add]
@@ -572,8 +628,11 @@ theorem fromCsv_given (symW : Flags → Bool) (num : String → Option Rat) (hea
     unfold csvDelimiter; rw [hgiven]; rfl
   have hlayout : a.layout.getD (csvScan (header ++ body) a).layout = .edgeList := by
     rcases hlay with h | h
-    · rw [h, hsc, h4, hdel, map_id_of _ _ hrs]
-      exact layoutOf_edge d body hne hshape
+    · rw [h, hsc, h4, hdel, map_id_of _ _ (fun s hs => hrs s (htake s hs))]
+      exact layoutOf_edge d _ htake_ne (by
+        rcases hshape with h' | h'
+        · exact Or.inl (fun s hs => h' s (htake s hs))
+        · exact Or.inr (fun s hs => h' s (htake s hs)))
     · rw [h]; rfl
   exact fromCsv_clean symW num header body a f d _ hd (by rw [hsc, h2]) hlayout (by rw [hsc, h1]) hclean hne hshape hint
 
@@ -587,7 +646,7 @@ theorem fromCsv_inferred (symW : Flags → Bool) (num : String → Option Rat) (
     (hclean : CleanFile (['\t', ',', ';', ' '].getD k ' ') (lastComment (a.comments.headD '#') header) a.comments
       header body)
     (hrs : ∀ s ∈ body, rstrip s = s)
-    (hne : body ≠ []) (hn : body.length ≤ 100)
+    (hne : body ≠ [])
     (hshape : (∀ s ∈ body, (splitAt (['\t', ',', ';', ' '].getD k ' ') s).length = 2) ∨
               (∀ s ∈ body, (splitAt (['\t', ',', ';', ' '].getD k ' ') s).length = 3))
     (hothers : ∀ j, j < 4 → j ≠ k → ∀ row ∈ body, countChar (['\t', ',', ';', ' '].getD j ' ') row = 0)
@@ -599,18 +658,25 @@ theorem fromCsv_inferred (symW : Flags → Bool) (num : String → Option Rat) (
           (tuplesOf num (body.map (splitAt (['\t', ',', ';', ' '].getD k ' ')))) f := by
   have hsc : csvScan (header ++ body) a = scanHeader (header ++ body) ['\t', ',', ';', ' '] a.comments := by
     unfold csvScan; rw [hgiven]
-  obtain ⟨h1, h2, h3, h4⟩ := scanHeader_clean ['\t', ',', ';', ' '] a.comments 100 header body hh
-    (fun s hs => hclean.body_data s hs) hn
+  obtain ⟨h1, h2, h3, h4⟩ := scanHeader_clean_any ['\t', ',', ';', ' '] a.comments 100 (by omega) header body hh
+    (fun s hs => hclean.body_data s hs)
+  have htake_ne : body.take 100 ≠ [] := by
+    cases body with
+    | nil => exact absurd rfl hne
+    | cons _ _ => simp
+  have htake : ∀ s ∈ body.take 100, s ∈ body := fun s hs => List.mem_of_mem_take hs
   -- the count of the delimiter on every row
   have hcount : ∃ c, 0 < c ∧ ∀ row ∈ body, countChar (['\t', ',', ';', ' '].getD k ' ') row = c := by
     rcases hshape with h | h
     · exact ⟨1, by omega, fun row hrow => by have := h row hrow; rw [splitAt_length] at this; omega⟩
     · exact ⟨2, by omega, fun row hrow => by have := h row hrow; rw [splitAt_length] at this; omega⟩
   obtain ⟨c, hc, hcall⟩ := hcount
-  have hchoose : chooseDelimiter 4 (body.map fun row => ['\t', ',', ';', ' '].map (fun d => countChar d row)) = k :=
+  have hchoose : chooseDelimiter 4 ((body.take 100).map fun row => ['\t', ',', ';', ' '].map (fun d => countChar d row)) = k :=
     chooseDelimiter_unique 4 _ k hk
-      (consistent_of_equal_counts ['\t', ',', ';', ' '] body k hk c hc hne hcall)
-      (fun j hj hjk => not_consistent_of_absent ['\t', ',', ';', ' '] body j hj (hothers j hj hjk))
+      (consistent_of_equal_counts ['\t', ',', ';', ' '] (body.take 100) k hk c hc htake_ne
+        (fun row hrow => hcall row (htake row hrow)))
+      (fun j hj hjk => not_consistent_of_absent ['\t', ',', ';', ' '] (body.take 100) j hj
+        (fun row hrow => hothers j hj hjk row (htake row hrow)))
   have hdel : (scanHeader (header ++ body) ['\t', ',', ';', ' '] a.comments).delimiter
       = ['\t', ',', ';', ' '].getD k ' ' := by
     rw [h3]
@@ -620,8 +686,11 @@ theorem fromCsv_inferred (symW : Flags → Bool) (num : String → Option Rat) (
     unfold csvDelimiter; rw [hgiven, hsc, hdel]; rfl
   have hlayout : a.layout.getD (csvScan (header ++ body) a).layout = .edgeList := by
     rcases hlay with h | h
-    · rw [h, hsc, h4, hdel, map_id_of _ _ hrs]
-      exact layoutOf_edge _ body hne hshape
+    · rw [h, hsc, h4, hdel, map_id_of _ _ (fun s hs => hrs s (htake s hs))]
+      exact layoutOf_edge _ _ htake_ne (by
+        rcases hshape with h' | h'
+        · exact Or.inl (fun s hs => h' s (htake s hs))
+        · exact Or.inr (fun s hs => h' s (htake s hs)))
     · rw [h]; rfl
   exact fromCsv_clean symW num header body a f _ _ hd (by rw [hsc, h2]) hlayout (by rw [hsc, h1]) hclean hne hshape hint
 
